@@ -422,10 +422,61 @@ func TestC14(t *testing.T) {
 			}
 			desc = append(desc, "BuildEmptyTree(root)")
 		}
+		// one tree in three: an ordered-by-user list that was used and emptied again (AppendNew, then Delete
+		// through the generated methods) instead of one that was never touched; it holds no data but is not
+		// the zero value of its type
+		emptied := 0
+		if rapid.IntRange(0, 2).Draw(rt, "emptied-ordered") == 0 {
+			type slot struct {
+				n   goNode
+				idx int
+			}
+			var slots []slot
+			for _, n := range goNodes(gs) {
+				sv := n.ptr.Elem()
+				for i := 0; i < sv.NumField(); i++ {
+					if fv := sv.Field(i); fv.Kind() == reflect.Ptr && fv.IsNil() && model.IsOrderedMapType(fv.Type()) {
+						slots = append(slots, slot{n, i})
+					}
+				}
+			}
+			for k := rapid.IntRange(1, 2).Draw(rt, "emptied-n"); k > 0 && len(slots) > 0; k-- {
+				j := rapid.IntRange(0, len(slots)-1).Draw(rt, "emptied-slot")
+				sl := slots[j]
+				slots = append(slots[:j], slots[j+1:]...)
+				f := sl.n.ptr.Elem().Field(sl.idx)
+				om := reflect.New(f.Type().Elem())
+				app, del := om.MethodByName("AppendNew"), om.MethodByName("Delete")
+				if !app.IsValid() || !del.IsValid() {
+					rt.Fatalf("HARNESS-BUG: %v has no AppendNew/Delete", f.Type())
+				}
+				var args []reflect.Value
+				for a := 0; a < app.Type().NumIn(); a++ {
+					args = append(args, reflect.Zero(app.Type().In(a)))
+				}
+				if out := app.Call(args); !out[1].IsNil() {
+					rt.Fatalf("HARNESS-BUG: AppendNew on a new %v: %v", f.Type(), out[1].Interface())
+				}
+				// Delete takes the key (a key struct for several keys); its zero value is the key just added
+				var dargs []reflect.Value
+				for a := 0; a < del.Type().NumIn(); a++ {
+					dargs = append(dargs, reflect.Zero(del.Type().In(a)))
+				}
+				if out := del.Call(dargs); len(out) > 0 && out[0].Kind() == reflect.Bool && !out[0].Bool() {
+					rt.Fatalf("HARNESS-BUG: Delete did not find the entry just appended to %v", f.Type())
+				}
+				f.Set(om)
+				emptied++
+				desc = append(desc, "emptied ordered list "+sl.n.path+"."+sl.n.ptr.Elem().Type().Field(sl.idx).Name)
+			}
+		}
 		before := model.Observe(v, gs)
 		emptiesBefore := emptyContainers(before)
 		nt := false
 		classes := append(th.TreeClasses(v, m.Stat()), "op:"+op)
+		if emptied > 0 {
+			classes = append(classes, "tree:emptied-ordered-list")
+		}
 		if thinned != "" {
 			classes = append(classes, "thinned", thinned)
 		}
